@@ -622,6 +622,7 @@ pub struct BatchObs {
 
 fn spawn_app(link: usize, mut rx: Receiver, tx: std::sync::mpsc::Sender<Ev>) -> tokio::task::JoinHandle<()> {
     tokio::spawn(async move {
+        let mut errors = 0;
         loop {
             match rx.recv::<Body<Value>>().await {
                 Ok(d) => {
@@ -642,8 +643,13 @@ fn spawn_app(link: usize, mut rx: Receiver, tx: std::sync::mpsc::Sender<Ev>) -> 
                         variant: variant_of(&e),
                         text: e.to_string(),
                     });
-                    // keep the link as it is (no detach from our side): what follows an error is not judged
-                    std::future::pending::<()>().await;
+                    // keep the link as it is (no detach from our side) and go on receiving, like an application that
+                    // logs the error and carries on: a delivery that was reported as contradictory must not come
+                    // back later as a message (a few rounds only: an error that repeats at once would spin)
+                    errors += 1;
+                    if errors > 3 {
+                        std::future::pending::<()>().await;
+                    }
                 }
             }
         }
@@ -1371,7 +1377,7 @@ pub fn run(ctx: &Ctx) -> Outcome {
     out.assume("the scripted peer injects a frame only at quiescent points (frame-by-frame mode) or all frames of one case in one write (burst mode); transport-level chunking of the byte stream is C06's subject");
     out.assume("one application task per link loops recv::<Body<Value>>() and accept(); link credit (100000) and the session's incoming window never run out");
     out.assume("only the message returned by recv is judged; Delivery's id/tag/format and accept() results are recorded in the evidence but not judged");
-    out.assume("after a contradictory continuation frame nothing more is asked of the link (the case ends its connection)");
+    out.assume("after a contradictory continuation frame the peer sends the remaining frames of the case and the application keeps calling recv() (up to 3 more errors): nothing may come back as a message; then the case ends its connection");
     out
 }
 
